@@ -20,6 +20,7 @@
 from typing import Optional, Mapping, Any
 from . import none_or_int, none_or_float, none_or_bool, none_or_dict, \
     remove_important, prefer_important
+from ..configuration_error import ConfigurationError
 
 def _lt_of_env_dict(a: dict, b: dict):
     assert a != b
@@ -60,6 +61,13 @@ class ExpRunDetails(object):
         retries_after_failure = none_or_int(config.get('retries_after_failure',
                                                        defaults.retries_after_failure))
         env = none_or_dict(config.get('env', defaults.env))
+        if env and not all(isinstance(name, str) for name in env):
+            # YAML reads unquoted 1, true or null as int, bool or None;
+            # such names can neither be compared nor be passed to a process
+            raise ConfigurationError(
+                "The names of environment variables in an env setting need to be strings, "
+                + "but these are not: %s. Please put them in quotes."
+                % ", ".join(repr(name) for name in env if not isinstance(name, str)))
 
         return ExpRunDetails(invocations, iterations, warmup, min_iteration_time,
                              max_invocation_time, ignore_timeouts, parallel_interference_factor,
